@@ -32,6 +32,12 @@ CLAIMED = {
  "C11": dict(level="exploration", technique="property-based testing (rapid), stateful model-based: generated Put/Probe/GetEntry/AgeEntries/Clear/Resize histories against a reference slot model",
    text="Generated operation histories with keys constructed to collide in the index bits are run against the table and a small reference model; every lookup must return nothing or exactly the most recent entry written for that key (move, value over the whole storable range, depth, type), a colliding store may replace only if deeper or equally deep and aged, Len/Hashfull must equal the model's occupancy for the specified power-of-two capacity, and no operation may panic for any size 0-64 MB (512 MB in thorough).",
    note="Key 0 excluded (empty-slot sentinel). The statement allows a miss at any time; 'store into an empty slot or over the same key is retrievable immediately' is the one presence requirement added. One listed known finding (value of move-less entries) is tolerated inline and counted.", ref="DESIGN.md §2 C11"),
+ "C15": dict(level="exploration", technique="property-based testing (rapid): metamorphic relations (colour mirror, fresh-vs-reached, repeated call, fresh-vs-reused evaluator, do/undo excursion) on generated positions and histories",
+   text="For every position of generated histories, generated positions and material configurations under drawn evaluation settings (lazy / advanced piece / mobility), the evaluation must be identical on a second call, with a fresh evaluator, on a position set up from the FEN and after doing+undoing every legal move; the position snapshot must be unchanged by Evaluate; the colour-mirrored position must evaluate identically from the mover's view; insufficient material must evaluate to 0.",
+   note="Mirror by refchess; the engine's own HasInsufficientMaterial decides the zero clause (its correctness is C10). Game-phase drift (listed C03/C15 finding) is tolerated inline and counted.", ref="DESIGN.md §2 C15"),
+ "C17": dict(level="exploration", technique="property-based testing (rapid) with an independent SAN denotation oracle + exhaustive enumeration of the 65,536 move-field combinations",
+   text="All legal moves of generated (disambiguation-rich and general) positions are rendered in SAN variants and UCI and parsed back; a string must yield exactly the one legal move it denotes and 'no move' when it denotes none or several (independent denotation oracle); illegal pseudo-legal moves and notations of other positions must be rejected; ValidateMove <=> legal. The packed encoding is checked exhaustively over all (from,to,type,promotion) combinations with boundary and drawn sort values and over the full value range for drawn moves.",
+   note="Only well-formed SAN/UCI-shaped strings are generated; value range [ValueNA, ValueInf]; the combination encoding to MoveNone is excluded (SetValue documented as no-op).", ref="DESIGN.md §2 C17"),
 }
 
 NOT_YET = "check not built yet in this session (work in progress; see DESIGN.md)"
